@@ -87,6 +87,7 @@ int main(int argc, char** argv) {
       });
     }
     verif::Options opt; opt.seed = seed; opt.strategy = strategy; opt.max_steps = 200000;
+    opt.spurious_futex = (seed % 3) == 0 && strategy != 1;   // futex_wait may return EINTR / spuriously: waiters must re-check
     verif::Result r = verif::run(bodies, opt);
     std::string out, mon;
     bool once = true, get_ok = true, ready_after_set = true, wait_after_set = true;
